@@ -735,3 +735,113 @@ class Glsl:
             if b[2].startswith(inst):
                 return b
         return None
+
+
+# ----------------------------------------------------------------------------
+# HLSL reader for constant buffers: struct definitions -> htype wire format
+# (["s"] ["v",n] ["m",rows,cols] ["arr",h,n] ["st",[[is_pad,h],...]]) plus a parallel
+# tag tree telling which structs are matCx2 typedefs (compared as leaves)
+
+HL_SCALAR = {"float", "int", "uint"}
+
+
+class Hlsl:
+    def __init__(self, text):
+        self.text = text
+        self.defs = {}     # name -> (htype, tag)
+        lines = text.splitlines()
+        i = 0
+        while i < len(lines):
+            ln = lines[i].strip()
+            m = re.match(r"typedef struct \{(.*)\}\s*(\w+);$", ln)
+            if m:
+                fs = [f.strip() for f in m.group(1).split(";") if f.strip()]
+                hs = [self.field(f + ";") for f in fs]
+                self.defs[m.group(2)] = (["st", [[False, h[1]] for h in hs]], "leaf")
+                i += 1
+                continue
+            m = re.match(r"struct\s+(\w+)\s*\{$", ln)
+            if m:
+                name = m.group(1)
+                fields = []
+                tags = []
+                i += 1
+                while i < len(lines) and lines[i].strip() != "};":
+                    decls = [d.strip() for d in lines[i].strip().split(";") if d.strip()]
+                    for k, d in enumerate(decls):
+                        fname, h, tag = self.field(d + ";")
+                        pad = fname.startswith("_pad") or fname.startswith("_end_pad") or k > 0
+                        if k > 0 and h != ["v", 2]:
+                            raise ValueError("HLSL: unexpected multi-declaration line %r" % lines[i])
+                        fields.append([pad, h])
+                        tags.append("leaf" if (k == 0 and len(decls) > 1) else tag)
+                    i += 1
+                self.defs[name] = (["st", fields], ("st", tags))
+            i += 1
+
+    def base(self, ty):
+        if ty in self.defs:
+            return self.defs[ty]
+        if ty in HL_SCALAR:
+            return ["s"], "leaf"
+        m = re.match(r"(float|int|uint)([234])$", ty)
+        if m:
+            return ["v", int(m.group(2))], "leaf"
+        m = re.match(r"(float)([234])x([234])$", ty)
+        if m:
+            return ["m", int(m.group(2)), int(m.group(3))], "leaf"
+        raise ValueError("HLSL type not understood: %r" % ty)
+
+    def field(self, decl):
+        m = re.match(r"(?:row_major\s+)?(\w+)\s+(\w+)((?:\[\d+\])*);$", decl)
+        if not m:
+            raise ValueError("HLSL member not understood: %r" % decl)
+        h, tag = self.base(m.group(1))
+        dims = re.findall(r"\[(\d+)\]", m.group(3))
+        for d in reversed(dims):
+            h = ["arr", h, int(d)]
+            tag = ("arr", tag)
+        return m.group(2), h, tag
+
+    def cbuffer(self, var):
+        m = re.search(r"cbuffer\s+%s_?\s*:[^{]*\{\s*([^}]*?)\s*\}" % re.escape(var), self.text)
+        if not m:
+            return None
+        decls = [d.strip() for d in m.group(1).split(";") if d.strip()]
+        fname, h, tag = self.field(decls[0] + ";")
+        if len(decls) > 1:   # decomposed matCx2 at top level
+            return ["st", [[k > 0, ["v", 2]] for k in range(len(decls))]], "leaf"
+        return h, tag
+
+
+def hl_to_lay(hl, tag):
+    """result of the hlslcb op + tag tree -> layout tree over the real (non-padding) fields"""
+    if tag == "leaf":
+        return ["l", hl[1]]
+    if hl[0] == "a":
+        return ["a", hl[1], hl[2], hl_to_lay(hl[3], tag[1] if isinstance(tag, tuple) and tag[0] == "arr" else "leaf")]
+    if hl[0] == "s":
+        offs, subs = [], []
+        for (pad, o, sub), t in zip(hl[2], tag[1]):
+            if not pad:
+                offs.append(o)
+                subs.append(hl_to_lay(sub, t))
+        return ["s", hl[1], offs, subs]
+    return ["l", hl[1]]
+
+
+def hl_continuations_ok(hl):
+    """decomposed matCx2 columns: every continuation column sits 8 bytes after the previous one"""
+    bad = []
+    if hl[0] == "a":
+        return hl_continuations_ok(hl[3])
+    if hl[0] != "s":
+        return bad
+    prev = None
+    for pad, o, sub in hl[2]:
+        if pad and sub == ["l", 8] and prev is not None and prev[1] == ["l", 8]:
+            if o != prev[0] + 8:
+                bad.append((prev[0], o))
+        bad += hl_continuations_ok(sub)
+        prev = (o, sub)
+    return bad
